@@ -29,8 +29,13 @@ def run(ctx):
     prog = ctx.prog()
     ctx.trust('rustc nightly MIR of /repo; FromStr for i64/f64/bool and i64::from_str_radix (std)')
     ctx.assume('the iterator passed to the string scanner yields the characters of the input in order (str::Chars)')
-    r61(ctx, prog)
-    r62(ctx, prog)
+    from rules.c07 import stage1_reader
+    why = stage1_reader(prog)
+    if why is not None:
+        ctx.unrecognised('R6.2', 'str_to_partial_tokens', 'reader', '%s: the rules on the string scanner cannot be evaluated on this representation (stated limitation, DESIGN section 8)' % why)
+    else:
+        r61(ctx, prog)
+        r62(ctx, prog)
     paths = r63_65(ctx, prog)
     r64(ctx, prog)
     r66(ctx, prog)
